@@ -19,11 +19,15 @@ from pathlib import Path
 
 ROOT = Path(__file__).resolve().parent.parent
 PY = "/venv/bin/python"
+OUT = Path(os.environ.get("MDPV_OUT") or ROOT)   # evidence/ and replays/ go here (self-tests write elsewhere)
 
 
 def base_env(devices=1):
     env = dict(os.environ)
     env["PYTHONPATH"] = f"{ROOT}/.deps:{ROOT}"
+    if os.environ.get("MDPV_SRC"):
+        # self-test only (tools/regress.sh): analyse a scratch copy of /repo/src with a seeded change applied
+        env["PYTHONPATH"] = os.environ["MDPV_SRC"] + ":" + env["PYTHONPATH"]
     env["JAX_PLATFORMS"] = "cpu"
     env["MDPAX_VERIF"] = "1"
     env["XLA_FLAGS"] = f"--xla_force_host_platform_device_count={devices}"
@@ -36,7 +40,7 @@ def base_env(devices=1):
 class Worker:
     def __init__(self, prop, devices, idx):
         self.devices = devices
-        logdir = ROOT / ".logs"
+        logdir = OUT / ".logs"
         logdir.mkdir(exist_ok=True)
         self.errpath = logdir / f"{prop}-d{devices}-w{idx}.err"
         self.err = open(self.errpath, "w")
@@ -217,7 +221,7 @@ def main(argv=None):
     by_key = {}
     for v in violations:
         by_key.setdefault(mod.finding_key(v), []).append(v)
-    rdir = ROOT / "replays" / prop
+    rdir = OUT / "replays" / prop
     for key, vs in by_key.items():
         reproduced = None
         for v in vs[:3]:
@@ -295,7 +299,7 @@ def main(argv=None):
         "wall_s": round(wall, 2),
         "violations": len(confirmed),
     }
-    edir = ROOT / "evidence"
+    edir = OUT / "evidence"
     edir.mkdir(exist_ok=True)
     (edir / f"{prop}.json").write_text(json.dumps(ev, indent=1))
     print(f"{prop} tier={tier}: jobs={len(jobs)} obligations={agg['obligations']} discharged={agg['discharged']} "
